@@ -324,17 +324,23 @@ func CalleeName(c *ssa.CallCommon) string {
 // RetVal resolves result i of a Return: functions with defers spill results into a local cell and return a
 // load of it; the value actually returned is the last store to that cell in the returning block.
 func RetVal(ret *ssa.Return, i int) ssa.Value {
-	v := ret.Results[i]
+	return resolveCellLoad(ret.Results[i], 0)
+}
+
+// resolveCellLoad: a load of a local cell (named result, spilled variable) is replaced by the value stored into the
+// cell that reaches it — the last store before it in its block, else the nearest store in a dominating block when no
+// other store can intervene.  Anything else is returned unchanged.
+func resolveCellLoad(v ssa.Value, depth int) ssa.Value {
 	ld, ok := v.(*ssa.UnOp)
-	if !ok || ld.Op != token.MUL {
+	if !ok || ld.Op != token.MUL || depth > 4 {
 		return v
 	}
 	al, ok := ld.X.(*ssa.Alloc)
-	if !ok {
+	if !ok || al.Referrers() == nil {
 		return v
 	}
 	var last ssa.Value
-	for _, ins := range ret.Block().Instrs {
+	for _, ins := range ld.Block().Instrs {
 		if ins == ssa.Instruction(ld) {
 			break
 		}
@@ -343,7 +349,40 @@ func RetVal(ret *ssa.Return, i int) ssa.Value {
 		}
 	}
 	if last != nil {
-		return last
+		return resolveCellLoad(last, depth+1)
+	}
+	var stores []*ssa.Store
+	for _, ref := range *al.Referrers() {
+		if st, ok := ref.(*ssa.Store); ok && st.Addr == ssa.Value(al) {
+			stores = append(stores, st)
+		}
+	}
+	for d := ld.Block().Idom(); d != nil; d = d.Idom() {
+		var cand *ssa.Store
+		for _, ins := range d.Instrs {
+			if st, ok := ins.(*ssa.Store); ok && st.Addr == ssa.Value(al) {
+				cand = st
+			}
+		}
+		if cand == nil {
+			continue
+		}
+		for _, st := range stores {
+			if st == cand || st.Block() == d {
+				continue
+			}
+			if st.Block() == ld.Block() {
+				// stores before the load in its own block were handled above; later ones do not reach it, unless the
+				// block is in a loop
+				if !Reaches(ld.Block(), ld.Block(), false) {
+					continue
+				}
+			}
+			if Reaches(d, st.Block(), false) && (st.Block() == ld.Block() || Reaches(st.Block(), ld.Block(), false)) {
+				return v // another definition may intervene
+			}
+		}
+		return resolveCellLoad(cand.Val, depth+1)
 	}
 	return v
 }
